@@ -11,7 +11,7 @@ let () =
       let line = input_line stdin in
       match Zutil.split_ws line with
       | [] -> ()
-      | ["N"; n] -> st := start (nat_of_int (int_of_string n)); report "N"
+      | "N" :: n :: _ -> st := start (nat_of_int (int_of_string n)); report "N"
       | ["A"; "1"; "1"; "3"] ->
           (* the session is registered and dies at once: a good attempt followed by the end of that session *)
           st := pevent_step !st (EOffer { a_conn_ok = true; a_sess_ok = true; a_ping_ok = true; a_cancel = false });
@@ -19,6 +19,7 @@ let () =
       | ["A"; "2"; s; p] ->
           st := pevent_step !st (EOffer { a_conn_ok = true; a_sess_ok = (s = "1"); a_ping_ok = (p = "1"); a_cancel = true }); report "A"
       | ["A"; c; s; p] -> st := pevent_step !st (EOffer { a_conn_ok = (c = "1"); a_sess_ok = (s = "1"); a_ping_ok = (p = "1"); a_cancel = false }); report "A"
+      | "KS" :: _ -> st := pevent_step !st EKill; report "KS"
       | "K" :: _ -> st := pevent_step !st EKill; report "K"
       | ["X"] -> st := pevent_step !st ECancel; report "X"
       | ["E"] -> report "E"
